@@ -128,13 +128,10 @@ class CEval(object):
         ln = Len(seq)
         if isinstance(n.slice, ast.Slice):
             sl = n.slice
-            lo = IntC(0) if sl.lower is None else self.ex.clampi(self.int_of(sl.lower), ln)
-            hi = ln if sl.upper is None else self.ex.clampi(self.int_of(sl.upper), ln)
-            if sl.lower is None and sl.upper is None:
-                return s
-            d = Sub(hi, lo)
-            d = Ite(Lt(d, IntC(0)), IntC(0), d)
-            return SV(s.pt, Extract(seq, lo, d))
+            from .symexec import slice_term
+            lo_t = None if sl.lower is None else self.int_of(sl.lower)
+            hi_t = None if sl.upper is None else self.int_of(sl.upper)
+            return SV(s.pt, slice_term(self.ex, seq, lo_t, hi_t))
         i = self.int_of(n.slice)
         j = self.ex.norm_index(i, ln)
         if s.pt.kind == 'str':
